@@ -174,6 +174,7 @@ class TablePulseTemplate(AtomicPulseTemplate, ParameterConstrainer):
             raise ValueError("Cannot construct an empty TablePulseTemplate (no entries given). There is currently no "
                              "specific reason for this. Please submit an issue if you need this 'feature'.")
 
+        self._consistency_check = bool(consistency_check)
         self._entries = dict((ch, list()) for ch in entries.keys())
         for channel, channel_entries in entries.items():
             if len(channel_entries) == 0:
@@ -312,6 +313,9 @@ class TablePulseTemplate(AtomicPulseTemplate, ParameterConstrainer):
             parameter_constraints=[str(c) for c in self.parameter_constraints],
             measurements=self.measurement_declarations
         )
+        if not self._consistency_check:
+            # a template that was built without the check must be loadable without it as well
+            local_data['consistency_check'] = False
         data.update(**local_data)
         return data
 
